@@ -87,3 +87,14 @@ M('heap:remove-keeps-child', ['C08'], 'pairing_heap.hpp', "			h(element).backlin
 M('heap:remove-drops-children', ['C08'], 'pairing_heap.hpp', "				_root = _merge(_root, _collapse(child));", "				_collapse(child);")
 M('heap:collapse-drops-odd-element', ['C08'], 'pairing_heap.hpp', "			h(element).backlink = nullptr;\n			joined = element;\n		}else{", "			h(element).backlink = nullptr;\n			joined = paired ? paired : element;\n			if(paired) { auto pp = h(paired).backlink; h(paired).backlink = nullptr; paired = pp; }\n		}else{")
 M('heap:pop-keeps-child-link', ['C08'], 'pairing_heap.hpp', "		// Remove the root from the heap.\n		h(_root).child = nullptr;", "		// Remove the root from the heap.")
+
+# ---------------------------------------------------------------- C09 / C16 radix tree
+M('radix:pfx-depth0-shift64', ['C09'], 'rcu_radixtree.hpp', "		if(!d)\n			return 0;\n", "")
+M('radix:leaf-mask-overwritten', ['C09'], 'rcu_radixtree.hpp', "				cs->mask.store(mask | (uint16_t(1) << idx), std::memory_order_release);", "				cs->mask.store(mask > 0xff ? uint16_t(1) << idx : (mask | (uint16_t(1) << idx)), std::memory_order_release);")
+M('radix:split-loses-sibling', ['C09', 'C16'], 'rcu_radixtree.hpp', "				r->links[idx_of(s->prefix, d)].store(s, std::memory_order_relaxed);\n", "				if(d != 9) r->links[idx_of(s->prefix, d)].store(s, std::memory_order_relaxed);\n")
+M('radix:erase-clears-neighbour-too', ['C09'], 'rcu_radixtree.hpp', "				cn->mask.store(mask & ~(uint16_t(1) << idx), std::memory_order_release);", "				cn->mask.store(mask & ~(uint16_t(idx == 7 ? 3 : 1) << idx), std::memory_order_release);")
+M('radix:find_or_insert-flag-inverted-in-leaf', ['C09'], 'rcu_radixtree.hpp', "					return {std::launder(reinterpret_cast<T *>(cs->entries[idx].buffer)), false};", "					return {std::launder(reinterpret_cast<T *>(cs->entries[idx].buffer)), idx == 0};")
+M('radix:iterator-skips-leaf-entry-15', ['C09'], 'rcu_radixtree.hpp', "				while(_idx < 16) {\n					if(mask & (1 << _idx))\n						return;", "				while(_idx < 16) {\n					if(mask & (1 << _idx) & 0x7fff)\n						return;")
+M('radix:dtor-skips-values', ['C16'], 'rcu_radixtree.hpp', "					p->~T();\n", "					if(idx != 3) p->~T();\n")
+M('radix:dtor-leaks-inner-node', ['C16'], 'rcu_radixtree.hpp', "				if(!tn) {\n					tn = cn->parent;\n					frg::destruct(_allocator, cn);\n				}", "				if(!tn) {\n					tn = cn->parent;\n					if(cn->depth != 14) frg::destruct(_allocator, cn);\n				}")
+M('radix:common-prefix-one-short', ['C09'], 'rcu_radixtree.hpp', "				while(pfx_of(k, d + 1) == pfx_of(s->prefix, d + 1))\n					d++;", "				while(pfx_of(k, d + 1) == pfx_of(s->prefix, d + 1))\n					d++;\n				if(d == 12) d = 11;")
